@@ -90,7 +90,7 @@ Print Assumptions C03_classify_absent_leaf.
 (* Non-vacuity: duplicates, a gap, a past and a future nonce around three applied ones (one of
    them a chargeably failed call). *)
 Example C03_example :
-  let cfg := {| cfg_fee := true; cfg_events := false; cfg_miner := 0; cfg_strict_ids := false |} in
+  let cfg := {| cfg_fee := true; cfg_events := false; cfg_miner := 0; cfg_strict_ids := true |} in
   let A b n := {| ac_bal := b; ac_nonce := n; ac_txn := -1; ac_round := 0 |} in
   let st := {| st_accts := [(1, A 50 0); (3, A 100 4)]; st_nodes := [] |} in
   let tx n ty := {| tx_hash := n; tx_type := ty; tx_from := 3; tx_to := 1; tx_value := 0; tx_fee := 1; tx_nonce := n |} in
